@@ -69,6 +69,24 @@ func (s *State) H(name string) string {
 		if nd, ok := s.e.nilDom[name]; ok {
 			s.e.assume(eq(sel(t, "0"), nd))
 		}
+		if pi, ok := s.e.mapPair[name]; ok {
+			if _, a := s.heap[pi.md]; !a {
+				if _, b := s.heap[pi.mv]; !b {
+					other := pi.md
+					if name == pi.md {
+						other = pi.mv
+					}
+					ot := other + "!" + s.base
+					if !s.e.declared[ot] {
+						s.e.declConst(ot, s.e.heapSort[other])
+						if nd, ok := s.e.nilDom[other]; ok {
+							s.e.assume(eq(sel(ot, "0"), nd))
+						}
+					}
+					s.e.assume(s.e.canonical(pi, pi.md+"!"+s.base, pi.mv+"!"+s.base))
+				}
+			}
+		}
 	}
 	return t
 }
@@ -600,9 +618,11 @@ func (f *Frame) execBlock(b *ssa.BasicBlock, st0 *State, g0 string) {
 					continue
 				}
 				c := e.freshConst(h, e.heapSort[h])
-				for _, in := range ins {
-					e.assume(implies(in.eg, eq(c, f.out[in.p].H(h))))
+				chain := f.out[ins[len(ins)-1].p].H(h)
+				for k := len(ins) - 2; k >= 0; k-- {
+					chain = ite(ins[k].eg, f.out[ins[k].p].H(h), chain)
 				}
+				e.assume(eq(c, chain))
 				st.heap[h] = c
 			}
 			same := true
@@ -613,9 +633,11 @@ func (f *Frame) execBlock(b *ssa.BasicBlock, st0 *State, g0 string) {
 			}
 			if !same {
 				c := e.freshConst("alloc", "Int")
-				for _, in := range ins {
-					e.assume(implies(in.eg, eq(c, f.out[in.p].alloc)))
+				chain := f.out[ins[len(ins)-1].p].alloc
+				for k := len(ins) - 2; k >= 0; k-- {
+					chain = ite(ins[k].eg, f.out[ins[k].p].alloc, chain)
 				}
+				e.assume(eq(c, chain))
 				st.alloc = c
 			}
 			for r := range st.iters {
@@ -663,13 +685,19 @@ func (f *Frame) execBlock(b *ssa.BasicBlock, st0 *State, g0 string) {
 				continue
 			}
 			c := e.declConst(f.name(phi), e.sortOf(phi.Type()))
-			for _, in := range ins {
-				v := f.val(phi.Edges[in.pidx])
+			chain := ""
+			for k := len(ins) - 1; k >= 0; k-- {
+				v := f.val(phi.Edges[ins[k].pidx])
 				if v.LV != nil {
 					fail("%s: phi of interior pointers unsupported (%s)", f.fn, phi.Name())
 				}
-				e.assume(implies(in.eg, eq(c, v.T)))
+				if chain == "" {
+					chain = v.T
+				} else {
+					chain = ite(ins[k].eg, v.T, chain)
+				}
 			}
+			e.assume(eq(c, chain))
 			f.vals[phi] = Val{T: c}
 		}
 		if li != nil {
@@ -830,7 +858,7 @@ func (f *Frame) execInstr(b *ssa.BasicBlock, instr ssa.Instruction, st *State, g
 		case *types.Map:
 			md, mv := e.mapHeaps(t)
 			present := sel(sel(st.H(md), x.T), k)
-			v := ite(present, sel(sel(st.H(mv), x.T), k), e.zero(t.Elem()))
+			v := sel(sel(st.H(mv), x.T), k) // canonical representation: zero value for absent keys
 			if in.CommaOk {
 				vc := e.declConst(f.name(in)+"$0", e.sortOf(t.Elem()))
 				oc := e.declConst(f.name(in)+"$1", "Bool")
@@ -856,9 +884,10 @@ func (f *Frame) execInstr(b *ssa.BasicBlock, instr ssa.Instruction, st *State, g
 		f.vals[in] = Val{T: r, Fn: fn, Bind: bs}
 	case *ssa.MakeMap:
 		r := f.allocRef(st, in.Name())
-		md, _ := e.mapHeaps(in.Type())
+		md, mv := e.mapHeaps(in.Type())
 		mt := in.Type().Underlying().(*types.Map)
 		f.setHeap(st, md, sto(st.H(md), r, fmt.Sprintf("((as const (Array %s Bool)) false)", e.sortOf(mt.Key()))))
+		f.setHeap(st, mv, sto(st.H(mv), r, e.constArray(e.sortOf(mt.Key()), e.sortOf(mt.Elem()), e.zero(mt.Elem()))))
 		f.vals[in] = Val{T: r}
 	case *ssa.MakeSlice:
 		r := f.allocRef(st, in.Name())
@@ -877,8 +906,15 @@ func (f *Frame) execInstr(b *ssa.BasicBlock, instr ssa.Instruction, st *State, g
 		}
 		f.safety(b, "nilmap", in, not(eq(m.T, "0")))
 		md, mv := e.mapHeaps(in.Map.Type())
+		d0, v0 := sel(st.H(md), m.T), sel(st.H(mv), m.T)
 		f.setHeap(st, md, sto(st.H(md), m.T, sto(sel(st.H(md), m.T), k, "true")))
 		f.setHeap(st, mv, sto(st.H(mv), m.T, sto(sel(st.H(mv), m.T), k, v.T)))
+		if e.declared["seq$Str"] && e.heapSort[mv] == "(Array Int (Array Str Str))" {
+			// instance of the bagv insert lemma (seq_Str.smt2), stated at the update site
+			b0 := app("bagvS", d0, v0)
+			b1 := ite(sel(d0, k), sto(b0, sel(v0, k), app("-", sel(b0, sel(v0, k)), "1")), b0)
+			e.assume(eq(app("bagvS", sel(st.H(md), m.T), sel(st.H(mv), m.T)), sto(b1, v.T, app("+", "1", sel(b1, v.T)))))
+		}
 	case *ssa.Range:
 		switch t := in.X.Type().Underlying().(type) {
 		case *types.Map:
